@@ -1225,6 +1225,36 @@ theorem shared_prefixed_operand_not_translated :
     Impl.shiftCell 0 2 ['S', '!', 'A', '1', ':', 'B', '2'] = ['S', '!', 'A', '1', ':', 'B', '4'] := by
   decide +kernel
 
+/-! ## Data-validation formulas: rewritten through the XML escaping -/
+
+/-- the escaping used for data-validation formulas loses nothing -/
+theorem dv_unescape_escape (s : Str) : Impl.unescapeXML (Impl.escapeXML s) = s := unescape_escape s
+
+/-- **dv_wrapper_transparent** — clause "data-validation rules": `adjustDataValidations` rewrites the
+UNESCAPED formula with the same `adjustFormulaRef` as a cell formula and stores it escaped again, so
+what `GetDataValidations` (and Excel) read after the edit is exactly the rewrite of what they read
+before; a quoted literal list (`&quot;…&quot;`) is not touched. Tied by the transcript op `dvw` (the
+stored text is taken from the saved package). -/
+theorem dv_wrapper_transparent (env : Impl.Env) (content v : Str) (toks : List Token)
+    (h : Impl.adjustDV env content toks = some v) :
+    (Impl.isFormulaDV content = true ∧
+      Impl.unescapeXML v = (Impl.adjustRef { env with formula := Impl.unescapeXML content } toks).1) ∨
+    (Impl.isFormulaDV content = false ∧ v = content) := by
+  unfold Impl.adjustDV at h
+  by_cases hf : Impl.isFormulaDV content = true
+  · left
+    simp only [hf, if_true] at h
+    refine ⟨hf, ?_⟩
+    cases hr : Impl.adjustRef { env with formula := Impl.unescapeXML content } toks with
+    | mk val er =>
+      cases er with
+      | none => simp [hr] at h; rw [← h, unescape_escape]
+      | some x => simp [hr] at h
+  · right
+    have hf' : Impl.isFormulaDV content = false := by simpa using hf
+    simp only [hf', Bool.false_eq_true, if_false, Option.some.injEq] at h
+    exact ⟨hf', h.symm⟩
+
 /-! ## Where the current code does not satisfy the full statement -/
 
 /-- **array_constant_verbatim** (repaired in the repository; was `finding_array_constant_rewritten`) —
